@@ -4,7 +4,7 @@
 (*                                                                         *)
 (* State: three live objects - a BitStream "a", a BitArray "b" and an      *)
 (* immutable Bits "c" - and the bit-numbering option.  A step is one call  *)
-(* of the mutator / stream families of Calls.tla on "a" or "b" (operands:  *)
+(* of the mutator / stream / token-read families of Calls.tla on "a" or "b" (operands: *)
 (* literals, the target itself, or one of the other objects) or a toggle   *)
 (* of options.lsb0; the new state is what CoreStep prescribes.             *)
 (*                                                                         *)
@@ -32,7 +32,7 @@ ObjRef(id) == [k |-> "obj", id |-> id]
 
 AllMutFams == {"grow", "del", "setitem", "setslice", "range", "set", "replace"}
 ASSUME Fams \subseteq AllMutFams
-FamsFor(t) == IF t = "a" THEN Fams \cup {"stream"} ELSE Fams
+FamsFor(t) == IF t = "a" THEN Fams \cup {"stream", "tokread"} ELSE Fams
 InplaceOnly(c) == c.op \notin {"inv", "and", "or", "xor", "rand", "ror_", "rxor", "lshift", "rshift"}
 
 \* calls of the families on target t whose content is v: `a' in the family means `the target itself'
@@ -62,7 +62,7 @@ Init ==
 Apply(o, upd) == [id \in DOMAIN o |-> IF id \in DOMAIN upd THEN upd[id] ELSE o[id]]
 
 DoCall(call) ==
-  LET R == CoreStep(objs, opts, call) IN
+  LET R == Step(objs, opts, call) IN
   /\ R.free = {}                                  \* only fully specified calls drive the machine
   /\ R.k \in {"ok", "raise"}
   /\ \A id \in DOMAIN R.upd : Len(R.upd[id].v) <= LMax
